@@ -182,9 +182,13 @@ def main():
             if i % 2 == 0:
                 fg.append({"name": "dottedcircle", "unicodes": [0x25CC], "width": 600, "contours": sqf(100, 100, 400), "components": [],
                            "anchors": [("bottom", Fr(300), Fr(-20))] if i % 4 == 2 else []})
+            # a glyph with nothing in it but its advance, and a filter that scales advances: what a first compile did to its
+            # working copy must not be found by the second one
+            fg.append({"name": "space", "unicodes": [0x20], "width": 600, "contours": [], "components": [], "anchors": []})
             fdesc = {"glyphs": fg, "glyphOrder": [g["name"] for g in fg],
                      "lib": {"com.github.googlei18n.ufo2ft.filters": [{"name": "dottedCircle", "pre": True},
                                                                       {"name": "propagateAnchors", "pre": True},
+                                                                      {"name": "transformations", "kwargs": {"ScaleX": 50, "OffsetY": 10}},
                                                                       {"name": "sortContours"}]},
                      "features": "languagesystem DFLT dflt;\n"}
             for lib in ("ufoLib2", "defcon"):
